@@ -8,6 +8,8 @@ import (
 	"go/types"
 	"sort"
 	"strings"
+
+	"golang.org/x/tools/go/cfg"
 )
 
 // RR: grammar token conservation (C11). Productions are read from parser/proto.y (a small reader
@@ -524,4 +526,185 @@ func rr3SameBuffer(w *World) {
 	default:
 		w.violation("same-buffer", readerData.Pos(), "the lexer reads "+render(readerData)+" but the FileInfo is built over "+render(infoData)+": offsets recorded by the lexer are resolved against a different buffer (e.g. one still carrying the byte-order mark), so token text, positions and trailing trivia are shifted")
 	}
+}
+
+// rq5NilableGrammarValues (RQ5, C12): error-recovery actions assign nil to the semantic value of
+// some nonterminals (`$$ = nil`). In every production that uses such a nonterminal, a pointer- or
+// interface-typed value $i may only be dereferenced under a dominating `$i != nil` test.
+func rq5NilableGrammarValues(w *World) {
+	w.rule("RQ5")
+	p := w.pkg("parser")
+	if p == nil {
+		return
+	}
+	info := p.TypesInfo
+	src, err := readRepoFile(w, "parser/proto.y")
+	if err != nil {
+		w.undecided("grammar|read", token.NoPos, err.Error())
+		return
+	}
+	prods, err := parseYaccRules(src)
+	if err != nil {
+		w.undecided("grammar|parse", token.NoPos, err.Error())
+		return
+	}
+	var sw *ast.SwitchStmt
+	for _, f := range p.Syntax {
+		if !strings.HasSuffix(w.Fset.Position(f.Pos()).Filename, "proto.y.go") {
+			continue
+		}
+		ast.Inspect(f, func(x ast.Node) bool {
+			s, ok := x.(*ast.SwitchStmt)
+			if ok && s.Tag != nil && render(s.Tag) == "protont" && (sw == nil || len(s.Body.List) > len(sw.Body.List)) {
+				sw = s
+			}
+			return true
+		})
+	}
+	if sw == nil {
+		w.undecided("grammar|action-switch", token.NoPos, "action switch not found")
+		return
+	}
+	actions := map[int]*ast.CaseClause{}
+	for _, cl := range sw.Body.List {
+		cc := cl.(*ast.CaseClause)
+		if len(cc.List) != 1 {
+			continue
+		}
+		if tv, ok := info.Types[cc.List[0]]; ok && tv.Value != nil {
+			n, _ := constant.Int64Val(tv.Value)
+			actions[int(n)] = cc
+		}
+	}
+	isDollar := func(e ast.Expr) (int, string, bool) {
+		// protoDollar[i].F
+		s, ok := ast.Unparen(e).(*ast.SelectorExpr)
+		if !ok {
+			return 0, "", false
+		}
+		ix, ok := ast.Unparen(s.X).(*ast.IndexExpr)
+		if !ok || render(ix.X) != "protoDollar" {
+			return 0, "", false
+		}
+		tv, ok := info.Types[ix.Index]
+		if !ok || tv.Value == nil {
+			return 0, "", false
+		}
+		i, _ := constant.Int64Val(tv.Value)
+		return int(i), s.Sel.Name, true
+	}
+	// 1+2: nilable nonterminals (fixpoint)
+	nilable := map[string]string{} // nonterminal -> reason
+	for changed := true; changed; {
+		changed = false
+		for num, cc := range actions {
+			if num < 1 || num > len(prods) {
+				continue
+			}
+			pr := prods[num-1]
+			if _, done := nilable[pr.lhs]; done {
+				continue
+			}
+			ast.Inspect(cc, func(x ast.Node) bool {
+				as, ok := x.(*ast.AssignStmt)
+				if !ok || len(as.Lhs) != 1 || len(as.Rhs) != 1 {
+					return true
+				}
+				ls, ok := ast.Unparen(as.Lhs[0]).(*ast.SelectorExpr)
+				if !ok || render(ls.X) != "protoVAL" {
+					return true
+				}
+				if isNilIdent(info, as.Rhs[0]) {
+					nilable[pr.lhs] = fmt.Sprintf("production %d (%s : %s) sets $$ = nil", num, pr.lhs, strings.Join(pr.rhs, " "))
+					changed = true
+				} else if i, _, ok := isDollar(as.Rhs[0]); ok && i >= 1 && i <= len(pr.rhs) {
+					if why, isNil := nilable[pr.rhs[i-1]]; isNil {
+						// propagated only if not under a nil guard of that value
+						nilable[pr.lhs] = "propagates " + pr.rhs[i-1] + " (" + why + ")"
+						changed = true
+					}
+				}
+				return true
+			})
+		}
+	}
+	w.floor("nonterminals whose value may be nil", len(nilable), 5)
+	// 3: guarded dereferences
+	nDeref := 0
+	var nums []int
+	for n := range actions {
+		nums = append(nums, n)
+	}
+	sort.Ints(nums)
+	for _, num := range nums {
+		cc := actions[num]
+		if num < 1 || num > len(prods) {
+			continue
+		}
+		pr := prods[num-1]
+		hasNilable := false
+		for _, s := range pr.rhs {
+			if _, ok := nilable[s]; ok {
+				hasNilable = true
+			}
+		}
+		if !hasNilable {
+			continue
+		}
+		body := &ast.BlockStmt{List: cc.Body, Lbrace: cc.Colon, Rbrace: cc.End()}
+		g := buildCFG(info, body)
+		d := &Dataflow{G: g, Must: true, Init: Facts{}, Transfer: func(n ast.Node, in Facts) Facts { return in }}
+		d.Branch = func(leaf ast.Expr, truth bool, s Facts) Facts {
+			if be, ok := leaf.(*ast.BinaryExpr); ok && (be.Op == token.NEQ || be.Op == token.EQL) && isNilIdent(info, be.Y) {
+				if (be.Op == token.NEQ) == truth {
+					return s.with("nonnil:" + types.ExprString(be.X))
+				}
+			}
+			return s
+		}
+		d.Run()
+		d.Walk(func(_ *cfg.Block, n ast.Node, before Facts) {
+			parents := parentMap(n)
+			inspectPost(n, func(x ast.Node) {
+				e, ok := x.(ast.Expr)
+				if !ok {
+					return
+				}
+				i, fld, ok := isDollar(e)
+				if !ok || i < 1 || i > len(pr.rhs) {
+					return
+				}
+				why, isNil := nilable[pr.rhs[i-1]]
+				if !isNil {
+					return
+				}
+				// pointer / interface typed?
+				tv, ok := info.Types[e]
+				if !ok {
+					return
+				}
+				switch tv.Type.Underlying().(type) {
+				case *types.Pointer, *types.Interface:
+				default:
+					return
+				}
+				// dereferenced?
+				par, ok := parents[x].(*ast.SelectorExpr)
+				if !ok || par.X != e {
+					return
+				}
+				nDeref++
+				name := types.ExprString(e)
+				key := fmt.Sprintf("nilable-value|%d:%s|$%d.%s.%s", num, pr.lhs, i, fld, par.Sel.Name)
+				if before["nonnil:"+name] || shortCircuitGuard(info, parents, x, name) {
+					w.ok(key, e.Pos(), "dereference of $"+fmt.Sprint(i)+" is under a nil test")
+				} else if s := info.Selections[par]; s != nil && s.Kind() == types.MethodVal && methodHandlesNilReceiver(w, s.Obj().(*types.Func)) {
+					w.ok(key, e.Pos(), "method tests its receiver for nil")
+				} else {
+					w.violation(key, e.Pos(), fmt.Sprintf("in the action of `%s : %s` the value $%d (%s) can be nil — %s — but is dereferenced (.%s) without a nil test: some syntactically broken input makes parser.Parse panic", pr.lhs, strings.Join(pr.rhs, " "), i, pr.rhs[i-1], why, par.Sel.Name))
+				}
+			})
+		})
+	}
+	w.floor("dereferences of possibly-nil grammar values", nDeref, 1)
 }
